@@ -375,6 +375,106 @@ def work(chunk):
     return {"evals": len(chunk), "hist": hist, "viol": viol[:300]}
 
 
+# ---------------------------------------------------------------------------------------------
+# the same file included more than once in one build: what an include yields depends on its
+# type and the file's bytes only, not on what was included before
+
+PAIR_TYPES = ["str", "b64", "b64urlsafe", "json", "yaml", "toml", "nosuch"]
+PAIR_DOCS = [
+    ("json+yaml", b'{"v": [1, "x"], "s": ">>>???", "w": {"y": true}}  '),
+    ("toml", b'v = 1\ns = ">>>???"\n'),
+    ("text-only", b"plain >>> text ???\n"),
+    ("not-utf8", b"\xfb\xff\xfe\x00A"),
+]
+
+
+def want_for(typ, data):
+    """-> ("value", wire) | ("error",) | None (unjudged)"""
+    if typ == "nosuch":
+        return ("error",)
+    if typ == "b64":
+        return ("value", base64.b64encode(data).decode())
+    if typ == "b64urlsafe":
+        return ("value", base64.urlsafe_b64encode(data).decode())
+    try:
+        text = data.decode("utf-8")
+    except UnicodeDecodeError:
+        return ("error",)
+    if typ == "str":
+        return ("value", text)
+    try:
+        return ("value", expected_wire(py_from_decoded(decode_independent(typ, text))))
+    except OutsideSubset:
+        return None
+    except (Invalid, ValueError, RecursionError):
+        return ("error",)
+
+
+def pair_cases():
+    for dn, data in PAIR_DOCS:
+        assert base64.b64encode(data) != base64.urlsafe_b64encode(data), dn
+        for t1, t2 in itertools.product(PAIR_TYPES, repeat=2):
+            for layout in ("one-file", "second-in-imported-file", "first-in-imported-file"):
+                yield (dn, data, t1, t2, layout)
+        for t1, t2, t3 in itertools.product(["b64", "b64urlsafe", "json", "str"], repeat=3):
+            yield (dn, data, t1, (t2, t3), "three-in-one-file")
+
+
+def pair_work(chunk):
+    srv = core.worker_server()
+    d = sdir()
+    hist = {}
+    viol = []
+    for dn, data, t1, t2, layout in chunk:
+        n = next(_cnt)
+        doc = "pdoc%d.dat" % n
+        with open(os.path.join(d, doc), "wb") as f:
+            f.write(data)
+        types = [t1] + (list(t2) if isinstance(t2, tuple) else [t2])
+        main = os.path.join(d, "pmain%d.ucg" % n)
+        other = os.path.join(d, "pother%d.ucg" % n)
+        inc = lambda i: 'let v%d = include %s "./%s";\n' % (i, types[i], doc)
+        if layout in ("one-file", "three-in-one-file"):
+            files = {main: "".join(inc(i) for i in range(len(types)))}
+        elif layout == "second-in-imported-file":
+            files = {main: inc(0) + 'let o = import "./pother%d.ucg";\nlet v1 = o.v1;\n' % n, other: inc(1)}
+        else:
+            files = {main: 'let o = import "./pother%d.ucg";\nlet v0 = o.v0;\n' % n + inc(1), other: inc(0)}
+        for fp, text in files.items():
+            with open(fp, "w") as f:
+                f.write(text)
+        rs = srv.req({"op": "build", "path": main})
+        for fp in list(files) + [os.path.join(d, doc)]:
+            os.unlink(fp)
+        wants = [want_for(t, data) for t in types]
+        bad = None
+        if "panic" in rs or "abort" in rs or "hang" in rs:
+            bad = ("crash", rs)
+        elif any(w is None for w in wants):
+            oc = "unjudged(outside subset)"
+        elif any(w[0] == "error" for w in wants):
+            oc = "error=error"
+            if "ok" in rs:
+                i = [w[0] for w in wants].index("error")
+                bad = ("accepts-malformed", {"include": i, "type": types[i], "bound": dict(map(tuple, rs["ok"]["t"])).get("v%d" % i, "MISSING")})
+        else:
+            oc = "value=value"
+            if "ok" not in rs:
+                bad = ("rejects-valid", rs.get("err", "")[:200])
+            else:
+                got = dict(map(tuple, rs["ok"]["t"]))
+                for i, w in enumerate(wants):
+                    if not wire_equal(w[1], got.get("v%d" % i, "MISSING")):
+                        bad = ("decodes-differently", {"include": i, "type": types[i], "expected": w[1], "bound": got.get("v%d" % i, "MISSING")})
+                        break
+        k = "same-file-twice:%s:%s" % (layout, oc if bad is None else bad[0].upper())
+        hist[k] = hist.get(k, 0) + 1
+        if bad:
+            viol.append((dn, data, types, layout, bad[0], bad[1]))
+    srv.recycle()
+    return {"evals": len(chunk), "hist": hist, "viol": viol}
+
+
 def cases(thorough):
     docs = {"json": [], "yaml": [], "toml": []}
     for cls, v in py_values(thorough):
@@ -439,13 +539,29 @@ def run(ctx):
                 "mixed lists) written by Python as JSON (compact, indented, ASCII-escaped), YAML (block/flow x plain/single/double quoting) and "
                 "TOML (inline tables / [sections] and [[arrays of tables]]); text files for str; every byte string of length <= 4 over "
                 "{00 41 0A FB FF} for b64 and b64urlsafe; unknown types; every truncation and every single-byte substitution by {, \", :, NUL of "
-                "the longest documents per format (judged by the independent decoder). Each include is one built file; all distinct.")
+                "the longest documents per format (judged by the independent decoder). Each include is one built file; all distinct. Then the same "
+                "file included twice in one build: 4 documents x every ordered pair of 7 include types x {both in one file, either one in an "
+                "imported file} and every triple over {b64, b64urlsafe, json, str}, each binding judged as if it were the only include.")
     viol = []
     for part in core.pmap(work, cs, chunk=400):
         ctx.count(part["evals"], part["evals"])
         for k, v in part["hist"].items():
             ctx.outcome(k, v)
         viol.extend(part["viol"])
+    pviol = []
+    for part in core.pmap(pair_work, list(pair_cases()), chunk=60):
+        ctx.count(part["evals"], part["evals"])
+        for k, v in part["hist"].items():
+            ctx.outcome(k, v)
+        pviol.extend(part["viol"])
+    for dn, data, types, layout, kind, det in sorted(pviol, key=lambda v: (len(v[2]), v[3], v[2])):
+        i = det.get("include", 0) if isinstance(det, dict) else 0
+        sig = "same-file-twice:%s:%s-after-%s:%s" % (kind, types[i], "+".join(types[:i]) or "nothing", dn)
+        if sig in ctx.violations:
+            ctx.violations[sig]["count"] += 1
+            continue
+        ctx.violation(sig, "%s: include %s of a file already included as %s in the same build (%s, %s)" % (kind, types[i], "+".join(types[:i]) or "nothing", layout, dn),
+                      {"kind": "include-pair", "doc": dn, "data_b64": base64.b64encode(data).decode(), "types": types, "layout": layout, "failure": kind, "detail": det})
     ctx.sample({"type": "yaml", "document": "k:\n  j:\n  - i: 'a: b'\n", "expect": {"k": {"j": [{"i": "a: b"}]}}})
     ctx.sample({"type": "b64", "bytes": "fb ff 00 41", "expect": base64.b64encode(bytes([0xfb, 0xff, 0, 0x41])).decode()})
     viol.sort(key=lambda v: len(v[2]))
@@ -479,6 +595,12 @@ def _not_utf8(b):
 def replay(case):
     data = base64.b64decode(case["data_b64"])
     core._WORKER_SERVER = None
+    if case.get("kind") == "include-pair":
+        ts = case["types"]
+        part = pair_work([(case["doc"], data, ts[0], tuple(ts[1:]) if len(ts) > 2 else ts[1], case["layout"])])
+        core.worker_server().close()
+        core._WORKER_SERVER = None
+        return not part["viol"], {"violations": [(v[4], v[5]) for v in part["viol"]]}
     exp = ("decoder",) if case["class"] in ("truncated", "corrupted") else None
     if exp is None:
         for c in cases(True):
